@@ -28,7 +28,8 @@ pub enum Scenario {
 
 fn build_script_strategy() -> impl Strategy<Value = BuildScript> {
     (
-        prop_oneof![1 => Just(vec![]), 3 => c01::history_strategy_for_bp(3)],
+        // (one class: an exec.d write that fails on a missing source file, tolerated by the buildpack, followed by a successful one)
+        prop_oneof![1 => Just(vec![]), 3 => c01::history_strategy_for_bp(3), 1 => c01::group_with_failed_execd_strategy(3)],
         prop_oneof![2 => Just(vec![]), 2 => c02::history_strategy_for_bp()],
         proptest::option::weighted(0.7, c07::launch_strategy()),
         proptest::option::weighted(0.6, meta_table(3)),
